@@ -55,7 +55,24 @@ pub fn run_generic(ctx: &mut Ctx, id: &'static str, methods: &'static [SolveMeth
     let mut orders: HashSet<u64> = HashSet::new();
     ctx.run_cases(n, |ctx, idx, rng| {
         let size = *rng.pick(&[0usize, 1, 1, 2, 2]);
-        let (desc, tree) = gen::any_game(rng, size);
+        let contention = idx % 4 == 3;
+        let (desc, tree) = if contention {
+            // contention workload: wide trees in which every move is hidden and chance infosets are
+            // shared, so that one player infoset / one chance infoset lies below many frontier
+            // nodes handed to different workers
+            let mut par = gen::GenParams::random(rng, 2);
+            par.hide_rate = 1.0;
+            par.p_term = 0.0;
+            par.p_chance = *rng.pick(&[0.1, 0.25, 0.4]);
+            par.p_shared_chance = 1.0;
+            par.max_actions = rng.range(3, 5);
+            par.max_outcomes = rng.range(2, 4);
+            par.max_depth = rng.range(3, 5);
+            par.node_budget = rng.range(120, 500);
+            (format!("g1-contention(depth<={},budget={},acts<={},chance={})", par.max_depth, par.node_budget, par.max_actions, par.p_chance), gen::random_tree(rng, &par))
+        } else {
+            gen::any_game(rng, size)
+        };
         if tree.count_nodes() > 700 {
             ctx.count("skipped-large", 1);
             return;
@@ -98,9 +115,9 @@ pub fn run_generic(ctx: &mut Ctx, id: &'static str, methods: &'static [SolveMeth
         };
         let reps = if quick { 2 } else { 3 };
         for rep in 0..reps {
-            let threads = *rng.pick(&[2usize, 2, 3, 3, 4, 4, 8, 16, 64]);
+            let threads = if contention { *rng.pick(&[4usize, 8, 8, 16, 16]) } else { *rng.pick(&[2usize, 2, 3, 3, 4, 4, 8, 16, 64]) };
             let cfg = Cfg { threads, ..base_cfg };
-            let jitter = rng.chance(0.7);
+            let jitter = contention || rng.chance(0.7);
             let flags = solve::ALL_LOGS | if jitter { verif::JITTER } else { 0 };
             ctx.mark(idx, &cfg.describe());
             let detail = || json!({"game": tree.to_json(), "cfg": cfg.describe(), "sampling": sname, "desc": desc, "rep": rep});
@@ -170,7 +187,7 @@ pub fn run_generic(ctx: &mut Ctx, id: &'static str, methods: &'static [SolveMeth
         ("solve(Sampled|External, ...) under fixed sampling decisions (seeded, forced round-robin, forced rarest outcome)", "seeded/forced sampling makes the draw at (site, infoset, pass) a pure function, so 1- and k-thread runs see the same sampled tree")
     };
     ctx.finish(crate::report::extra(
-        &format!("cases = k-thread runs of {} on G1/G2 games (<=700 nodes): random parameter sets (presets, None, custom tuples), budgets {{1,2,3,4,7,20,100}} (small budgets weighted up), thresholds {{0, random}}, k in {{2,3,4,8,16,64}}, 2-3 repetitions per configuration with fresh jitter seeds (70% of runs with hook-H5 yields/spins/sleeps between critical sections), 16 worker processes at once (oversubscription). Each run is (1) step-checked by O3 including the exactly-once visit monitor and the one-draw-per-infoset-per-pass monitor and (2) compared with the logged 1-thread run of the same configuration within 1e-9; a difference is inconclusive (not a violation) only if a trace passed within 1e-9 relative of a regret-matching discontinuity. Panics inside the parallel solver (e.g. try_lock on a contended infoset) are violations. distinct = hash(tree, configuration, sampling, node-to-thread assignment); non-trivial = game has a decision infoset. Schedules actually observed are measured: distinct (node,thread,pass) assignments and distinct visit orders.", what),
+        &format!("cases = k-thread runs of {} on G1/G2 games (<=700 nodes): random parameter sets (presets, None, custom tuples), budgets {{1,2,3,4,7,20,100}} (small budgets weighted up), thresholds {{0, random}}, k in {{2,3,4,8,16,64}}, every fourth case a contention workload (wide trees, all moves hidden, shared chance infosets, 4-16 threads, always jittered, incl. jitter while an infoset lock is held), 2-3 repetitions per configuration with fresh jitter seeds (70% of runs with hook-H5 yields/spins/sleeps between critical sections), 16 worker processes at once (oversubscription). Each run is (1) step-checked by O3 including the exactly-once visit monitor and the one-draw-per-infoset-per-pass monitor and (2) compared with the logged 1-thread run of the same configuration within 1e-9; a difference is inconclusive (not a violation) only if a trace passed within 1e-9 relative of a regret-matching discontinuity. Panics inside the parallel solver (e.g. try_lock on a contended infoset) are violations. distinct = hash(tree, configuration, sampling, node-to-thread assignment); non-trivial = game has a decision infoset. Schedules actually observed are measured: distinct (node,thread,pass) assignments and distinct visit orders.", what),
         &["the schedules explored are those the rayon pool produced under jitter and oversubscription; nothing is claimed about schedules not observed", extra_assume],
     ));
 }
